@@ -213,7 +213,8 @@ pub fn apply_dev(img: &mut Vec<u8>, p: &Parsed, dev: Dev, sel: u16) -> bool {
             for b in img[off..off + 64].iter_mut() {
                 *b = 0;
             }
-            let name: Vec<u16> = if sel % 2 == 0 { "R".encode_utf16().collect() } else { "Not The Root Entry Name".encode_utf16().collect() };
+            let choices = ["R", "Not The Root Entry Name", "C:\\Temp\\report.msg", "a/b", "bang!", "Root:Entry", "ROOT ENTRY", "\u{1F600} root", "0123456789012345678901234567890"];
+            let name: Vec<u16> = choices[sel as usize % choices.len()].encode_utf16().collect();
             for (k, u) in name.iter().enumerate() {
                 img[off + 2 * k..off + 2 * k + 2].copy_from_slice(&u.to_le_bytes());
             }
